@@ -1001,6 +1001,17 @@ impl DhtCoreEngine {
         // Register pending request - reject if at capacity to avoid evicting in-flight requests
         {
             let mut pending = self.pending_requests.write().await;
+            // Drop what cancelled callers left behind: a `retrieve` that is dropped while it
+            // waits never reaches the clean-up below, and its entries would occupy slots of
+            // this table for good (after MAX_PENDING_DHT_REQUESTS of them every query fails).
+            let abandoned: Vec<String> = pending
+                .iter()
+                .filter(|(_, tx)| tx.is_closed())
+                .map(|(id, _)| id.clone())
+                .collect();
+            for id in abandoned {
+                pending.pop(&id);
+            }
             if pending.len() >= MAX_PENDING_DHT_REQUESTS {
                 return Err(anyhow!(
                     "DHT request capacity exceeded ({} pending requests). Too many concurrent requests.",
